@@ -105,6 +105,8 @@ def const_value(v):
     if n == "IntVal":
         x = v.v % e5.M
         return x - e5.M if x >= e5.H else x
+    if n == "UnsignedIntVal":
+        return v.v
     if n == "FloatVal":
         return float(v.v)
     if n == "OpaqueBoolVal":
